@@ -406,6 +406,30 @@ static void *retargeter_main(void *arg)
 	return NULL;
 }
 
+/* suspends and resumes leaves on its own, not coordinated with the retargeters: a suspend can land while
+ * another thread's retarget holds the leaf (inline try-sync + private suspend count) */
+static void *suspender_main(void *arg)
+{
+	trial_t *t = arg;
+	vf_rng_t r;
+	vf_rng_seed(&r, t->salt, 0x5a5b);
+	uint64_t n = 0;
+	while (!atomic_load(&t->rt_stop)) {
+		if (atomic_load(&t->rt_stalled)) { struct timespec ts = { 0, 20000000 }; nanosleep(&ts, NULL); continue; }
+		hq_queue_t *leaf = &t->qs[t->ntargets + (int)vf_rnd_n(&r, (uint32_t)(t->nq - t->ntargets))];
+		int depth = 1 + (int)vf_rnd_n(&r, 3);
+		for (int i = 0; i < depth; i++) dispatch_suspend(leaf->q);
+		if (vf_rnd_n(&r, 3) == 0) sched_yield(); else if (vf_rnd_n(&r, 2)) vf_spin_ns(vf_rnd_n(&r, 20000));
+		for (int i = 0; i < depth; i++) dispatch_resume(leaf->q);
+		n++;
+		uint32_t w = vf_rnd_n(&r, 4);
+		if (w == 0) sched_yield();
+		else if (w < 3) { struct timespec ts = { 0, (long)vf_rnd_n(&r, 200000) }; nanosleep(&ts, NULL); }
+	}
+	vf_count("foreign_suspend_resume_pairs_during_retargets", n);
+	return NULL;
+}
+
 static void build_graph(trial_t *t)
 {
 	vf_rng_t *r = &t->rng;
@@ -615,15 +639,17 @@ static void run_std_trial(int idx)
 		vf_rng_seed(&cl[i].rng, t->salt, 1000 + (uint64_t)i);
 		if (pthread_create(&cl[i].th, NULL, client_main, &cl[i])) vf_fail("pthread_create");
 	}
-	pthread_t rth[2]; int nrt = 0;
+	pthread_t rth[2], sth; int nrt = 0, have_susp = 0;
 	if (t->retarget) {
 		nrt = 1 + (int)(t->salt & 1);
 		for (int i = 0; i < nrt; i++) if (pthread_create(&rth[i], NULL, retargeter_main, t)) vf_fail("pthread_create");
+		if (vf_opt_long("rt-susp", 1) && ((t->salt >> 1) & 1)) have_susp = !pthread_create(&sth, NULL, suspender_main, t);
 	}
 	for (int i = 0; i < t->nclients; i++) pthread_join(cl[i].th, NULL);
 	if (t->retarget) {
 		atomic_store(&t->rt_stop, 1);
 		for (int i = 0; i < nrt; i++) pthread_join(rth[i], NULL);
+		if (have_susp) pthread_join(sth, NULL);
 		vf_count("retargets_while_in_use", atomic_load(&t->retargets));
 		vf_count("retarget_trials", 1);
 		vf_count("retargets_to_ephemeral_queue", atomic_load(&t->ephemeral));
